@@ -1081,6 +1081,12 @@ class Model:
                     if not len(d) == 2:
                         continue
 
+                    # An equation between single elements (a[1] = c, a[1] = b[1]) or
+                    # with a broadcast scalar (x = fill(s, 3)) says nothing about
+                    # the other elements: only whole variables can be aliases.
+                    if d[0].shape != d[1].shape or eq.shape != d[0].shape:
+                        continue
+
                     # Check with substitute, which is a more expensive operation
                     if ca.substitute(eq, d[0], d[1]).is_zero():
                         return d, False
